@@ -140,6 +140,6 @@ def run(rep, pool, driver, tier):
                        'observed': {k: impl2.get(k) for k in ('err', 'msg', 'cells', 'outcomes', 'cues')},
                        'expected': {k: model2.get(k) for k in ('err', 'cells', 'outcomes', 'cues', 'bits')},
                        'python': L.python_snippet(small, l),
-                       'theorem_or_stream': 'correspondence learn/%s vs Lean model (C01: dictNdl_eq_spec / kernel_eq_spec)' % l,
+                       'theorem_or_stream': 'correspondence learn/%s vs Lean model (C01: dictNdl_eq_spec / ndl_call_eq_spec)' % l,
                        'shrunk_from_events': len(c['events']), 'shrink_steps': steps})
     rep.extra['failures_total'] = len(failures)
